@@ -1384,6 +1384,21 @@ def directed_cases():
                "vals": [{"tag": 0, "seed": None, "learn": True, "mode": 1}],
                "mode": "tuples", "triples": [[0, 0, 0], [1, 0, 0], [0, 1, 0], [1, 1, 0], [1, 2, 0]],
                "runs": [inproc, {"cfg": [1, 0, 1], "how": "inproc", "sched": 0}, {"cfg": [1, 0, 3], "how": "inproc", "sched": 0}]})
+    # --- third follow-up round
+    # seeded built-in filters with non-default arguments in front of real and simulated workers (what pickling must keep)
+    cs.append({"kind": "builtin", "seed": 1,
+               "envs": [{"src": "linear", "n": 12, "na": 3, "seed": 3, "prefix": [], "branches": [[["noise", "reward", [5, 6]]]]},
+                        {"src": "kernel", "n": 12, "na": 3, "seed": 4, "logged": True, "log_seed": 3, "logged_seed": 7, "prefix": [["reservoir", 6, [2, 5]]], "branches": [[["riffle", 2, 9]]]}],
+               "lrns": [{"type": "eps", "eps": 0.1, "seed": 2}, {"type": "ucb", "seed": 4}],
+               "vals": [{"type": "seq", "record": ["reward", "action", "probability"], "seed": None}],
+               "mode": "product", "pe": [0, 1, 2, 3], "pl": [0, 1], "pv": [0], "single_eval": True,
+               "runs": [inproc, {"cfg": [1, 2, 0], "how": "sim", "sched": 21}, {"cfg": [3, 0, 1], "how": "real", "sched": 0}]})
+    # finish() hooks: on the evaluated copy only, after its rows are recorded; its errors are logged and cost nothing
+    cs.append({"kind": "toy", "seed": 3, "envs": [{"tag": 0, "xs": [1, 2, 3], "raw": True}, {"tag": 1, "xs": [4, 5], "raw": True}, {"tag": 2, "xs": [], "raw": True}],
+               "lrns": [{"tag": 0, "mult": 1, "finish": "mark"}, {"tag": 1, "mult": 2, "finish": "raise", "fp": 1}, {"tag": 2, "mult": 1, "finish": "lazy"}, {"tag": 3, "mult": 3}],
+               "vals": [{"tag": 0, "seed": None, "learn": True, "mode": 1}],
+               "mode": "product", "pe": [0, 1, 2], "pl": [0, 1, 2, 3], "pv": [0], "single_eval": True,
+               "runs": [inproc, {"cfg": [1, 0, 1], "how": "inproc", "sched": 0}, {"cfg": [2, 0, 0], "how": "sim", "sched": 22}, {"cfg": [2, 1, 2], "how": "sim", "sched": 23}]})
     return cs
 
 
